@@ -76,7 +76,9 @@ impl Report {
         }
     }
     pub fn fail(&mut self, kind: &'static str, what: String, ops: Vec<String>, impl_out: Vec<String>, model_out: Vec<String>) {
-        if self.failures.len() < 50 {
+        // keep a bounded number PER KIND, so that model disagreements never crowd out the
+        // concrete oracle failures (which are what a VIOLATION replay is made from)
+        if self.failures.iter().filter(|f| f.kind == kind).count() < 20 {
             self.failures.push(Failure { kind, what, ops, impl_out, model_out });
         }
         self.count(&format!("failures.{}", kind));
